@@ -57,6 +57,12 @@ func checkC01(c *Ctx) {
 	c.Rule("C01-R21", "every operand handed to the parameter interpreter (TParm, directly or through a wrapper) is an int, a string or a bool: its stack reads anything else (int32 colour components, bytes) as 0")
 	c.Expect("C01-R21", 1)
 	checkTParmOperandTypes(c, p, "C01-R21")
+	c.Rule("C01-R22", "what the cell buffer remembers as last drawn is a record of its own: storing new combining runes makes a fresh slice, never rewrites the old one in place (the record shares it after a draw, so a changed cell would compare equal and stay unpainted)")
+	c.Expect("C01-R22", 1)
+	c.asRule("C08-R4", "C01-R22", func() { c08Alias(c, p, cbMethods(p)) })
+	c.Rule("C01-R23", "a pass that clears the terminal repaints everything: the clear flag is raised only together with cells.Invalidate() (a pass paints dirty cells only)")
+	c.Expect("C01-R23", 1)
+	checkClearImpliesInvalidate(c, p, "C01-R23", "tScreen")
 	get := func(name string) *ssa.Function {
 		fn := p.Fn("tcell:(*tScreen)." + name)
 		if fn == nil {
